@@ -226,7 +226,7 @@ func ruleEmissionLiterals(c *core.Ctx, rule string) {
 			// loops of helpers that were folded in: the entry loop is the one bounded by nextRef
 			var own []*core.V
 			for _, h := range heads {
-				if h.Cond.Expr != nil && mentionsField(info, h.Cond.Expr, "nextRef") {
+				if h.Cond.Expr != nil && mentionsFieldVia(g, h, h.Cond.Expr, "nextRef") {
 					own = append(own, h)
 				}
 			}
@@ -237,13 +237,14 @@ func ruleEmissionLiterals(c *core.Ctx, rule string) {
 		}
 		o.At(fn.Site(heads[0].AST, "entry loop"))
 		// loop bound mentions nextRef
-		o.Require(heads[0].Cond.Expr != nil && mentionsField(info, heads[0].Cond.Expr, "nextRef"), "the entry loop is not bounded by nextRef")
+		o.Require(heads[0].Cond.Expr != nil && mentionsFieldVia(g, heads[0], heads[0].Cond.Expr, "nextRef"), "the entry loop is not bounded by nextRef")
 		// header count is nextRef too
 		headerSeen := false
 		for _, l := range literalsWritten(fn) {
 			if l.Fmt && strings.HasPrefix(l.S, "xref") {
 				headerSeen = true
-				o.Require(len(l.Call.Args) == 3 && mentionsField(info, l.Call.Args[2], "nextRef"), "the subsection header does not print nextRef as its count")
+				hv := g.VertexOf(l.Call)
+				o.Require(len(l.Call.Args) == 3 && hv != nil && mentionsFieldVia(g, hv, l.Call.Args[2], "nextRef"), "the subsection header does not print nextRef as its count")
 			}
 		}
 		// the in-use entry prints (offset, generation) of the entry of the loop's number;
@@ -295,7 +296,7 @@ func ruleEmissionLiterals(c *core.Ctx, rule string) {
 				if strings.HasPrefix(sh, "xref") {
 					headerSeen = true
 					o.At(fn.Site(cs.Call, "subsection header (formatted by hand)"))
-					o.Require(len(ops) == 1 && mentionsField(info, ops[0].Expr, "nextRef"), "the subsection header does not print nextRef as its count")
+					o.Require(len(ops) == 1 && ops[0].V != nil && mentionsFieldVia(g, ops[0].V, ops[0].Expr, "nextRef"), "the subsection header does not print nextRef as its count")
 				}
 				if strings.Contains(sh, "D{10} D{5} n") {
 					checkEntryOps(cs.Call, ops)
@@ -319,7 +320,7 @@ func ruleEmissionLiterals(c *core.Ctx, rule string) {
 		}
 		o.Count(len(entryWrites))
 		body := succ(heads[0], core.EdgeTrue)
-		r := g.ReachFrom(body, true, core.AvoidVs(entryWrites...))
+		r := reachSkippingFailures(g, body, core.AvoidVs(entryWrites...))
 		if r[heads[0]] {
 			o.Fail("some path through the entry loop writes no entry (a number below /Size would have no entry)")
 		}
@@ -1869,6 +1870,43 @@ func ruleLoopCarriedTemplates(c *core.Ctx, rule string, shortPkg string) {
 							if obj, t := part(a); obj != nil && writes {
 								fills[obj] = append(fills[obj], use{v, t, cs.Call})
 							}
+							if obj := whole(a); obj != nil && writes {
+								// the callee rewrites the whole buffer -- io.ReadFull(r, buf), or
+								// CryptBlocks(buf, src) with a source as long as buf (buf itself,
+								// or src[:n] with n := len(buf)): this covers every part of it
+								full := cs.Key == "io.ReadFull" || cs.Key == "crypto/rand.Read"
+								if !full && len(cs.Call.Args) == 2 && i == 0 && (strings.HasSuffix(cs.Key, ".CryptBlocks") || strings.HasSuffix(cs.Key, ".XORKeyStream")) {
+									src := ast.Unparen(cs.Call.Args[1])
+									if whole(src) == obj {
+										full = true
+									} else if se, isSl := src.(*ast.SliceExpr); isSl && se.Low == nil && se.High != nil {
+										h := se.High
+										if id, isID := ast.Unparen(h).(*ast.Ident); isID {
+											if vc := valueCases(g, v, id, 1); len(vc) == 1 && vc[0].V != nil && vc[0].Expr != ast.Expr(id) {
+												h = vc[0].Expr
+											}
+										}
+										if lc, isCall := ast.Unparen(h).(*ast.CallExpr); isCall && core.CalleeKey(info, lc) == "builtin.len" && len(lc.Args) == 1 {
+											if whole(lc.Args[0]) == obj {
+												full = true
+											} else if lo := core.ObjOf(info, lc.Args[0]); lo == nil {
+												// len(w.buf) with buf := w.buf
+												if vc := valueCases(g, v, ast.NewIdent(obj.Name()), 1); len(vc) == 1 {
+													_ = vc
+												}
+												for _, d := range defVertices(g, obj) {
+													if rhs, ok := rhsFor(info, d, obj); ok && rhs != nil && core.SameExpr(info, rhs, lc.Args[0]) && len(defVertices(g, obj)) == 1 {
+														full = true
+													}
+												}
+											}
+										}
+									}
+								}
+								if full {
+									fills[obj] = append(fills[obj], use{v, obj.Name(), cs.Call})
+								}
+							}
 							if obj := whole(a); obj != nil && !writes && !strings.HasPrefix(cs.Key, "builtin.") {
 								emits[obj] = append(emits[obj], use{v, "", cs.Call})
 							}
@@ -1919,7 +1957,8 @@ func ruleLoopCarriedTemplates(c *core.Ctx, rule string, shortPkg string) {
 						o.At(fn.Site(f.node, "fills "+f.target))
 						var same []*core.V
 						for _, f2 := range fs {
-							if f2.target == f.target {
+							// the same part, or the whole buffer (which covers every part of it)
+							if f2.target == f.target || f2.target == obj.Name() {
 								same = append(same, f2.v)
 							}
 						}
@@ -2328,6 +2367,30 @@ func helperShape(c *core.Ctx, h *core.Func, g *core.Graph, at *core.V, e ast.Exp
 		}
 	}
 	return "", false
+}
+
+// mentionsFieldVia is mentionsField that also looks through locals with a
+// single definition (numEntries := w.nextRef; i < numEntries).
+func mentionsFieldVia(g *core.Graph, at *core.V, e ast.Expr, name string) bool {
+	info := g.Info
+	if mentionsField(info, e, name) {
+		return true
+	}
+	found := false
+	ast.Inspect(e, func(n ast.Node) bool {
+		id, ok := n.(*ast.Ident)
+		if !ok || found {
+			return !found
+		}
+		if v, isVar := info.ObjectOf(id).(*types.Var); isVar && !v.IsField() {
+			cs := valueCases(g, at, id, 1)
+			if len(cs) == 1 && cs[0].V != nil && cs[0].Expr != ast.Expr(id) && mentionsField(info, cs[0].Expr, name) {
+				found = true
+			}
+		}
+		return !found
+	})
+	return found
 }
 
 // mentionsField reports whether e selects a field (or calls a method) of the given name.
